@@ -7,7 +7,7 @@ use noodles_vcf::variant::record::{AlternateBases as _, Filters as _, Ids as _};
 // -------------------------------------------------------------------------------------------
 // value generators
 
-const VERS: &[&str] = &["4.2", "4.3", "4.4", "4.5"];
+pub const VERS: &[&str] = &["4.2", "4.3", "4.4", "4.5"];
 const NUMS_ARR: &[&str] = &["2", "3", "A", "R", "G", "."];
 
 fn gen_int(rng: &mut Rng, edge: bool) -> i32 {
@@ -31,7 +31,7 @@ const FLOATS: &[f32] = &[
     f32::MAX, f32::MIN_POSITIVE, 1e-45, f32::INFINITY, f32::NEG_INFINITY, 29.0, 30.5, 99.99, 1e10, 1e-3,
 ];
 
-fn gen_float(rng: &mut Rng, edge: bool) -> u32 {
+pub fn gen_float(rng: &mut Rng, edge: bool) -> u32 {
     match rng.below(if edge { 8 } else { 6 }) {
         0..=2 => rng.pick(FLOATS).to_bits(),
         3 => (rng.range(0, 100000) as f32 / 100.0).to_bits(),
@@ -85,7 +85,7 @@ fn gen_str(rng: &mut Rng, edge: bool) -> String {
     (0..n).map(|_| *rng.pick(STR_ALPHA)).collect()
 }
 
-fn opt<T>(rng: &mut Rng, f: impl FnOnce(&mut Rng) -> T) -> Option<T> {
+pub fn opt<T>(rng: &mut Rng, f: impl FnOnce(&mut Rng) -> T) -> Option<T> {
     if rng.chance(1, 4) { None } else { Some(f(rng)) }
 }
 
@@ -143,7 +143,7 @@ pub fn gen_gt(rng: &mut Rng, v44: bool, edge: bool) -> V {
     V::Gt(g)
 }
 
-fn gen_fdefs(rng: &mut Rng, with_gt: bool, n: usize) -> Vec<FDef> {
+pub fn gen_fdefs(rng: &mut Rng, with_gt: bool, n: usize) -> Vec<FDef> {
     let mut defs = vec![];
     if with_gt {
         defs.push(FDef { key: "GT".into(), num: "1".into(), ty: "S".into() });
@@ -163,7 +163,7 @@ fn defs_arg(defs: &[FDef]) -> String {
         .join(",")
 }
 
-fn gen_sample_vals(rng: &mut Rng, ver: &str, defs: &[FDef], edge: bool, reserved: bool, allow_empty: bool) -> Vec<OV> {
+pub fn gen_sample_vals(rng: &mut Rng, ver: &str, defs: &[FDef], edge: bool, reserved: bool, allow_empty: bool) -> Vec<OV> {
     let n = if allow_empty && rng.chance(1, 3) {
         0
     } else if rng.chance(1, 3) {
@@ -779,20 +779,20 @@ fn gen_record(rng: &mut Rng, ver: &str, feat: u64) -> Gen {
 
 /// canonical image of a RecordBuf (floats as bits)
 #[derive(Debug, PartialEq, Clone)]
-struct Canon {
-    chrom: String,
-    pos: usize,
-    ids: Vec<String>,
-    refb: String,
-    alts: Vec<String>,
-    qual: Option<u32>,
-    filters: Vec<String>,
-    info: Vec<(String, OV)>,
-    keys: Vec<String>,
-    samples: Vec<Vec<OV>>,
+pub struct Canon {
+    pub chrom: String,
+    pub pos: usize,
+    pub ids: Vec<String>,
+    pub refb: String,
+    pub alts: Vec<String>,
+    pub qual: Option<u32>,
+    pub filters: Vec<String>,
+    pub info: Vec<(String, OV)>,
+    pub keys: Vec<String>,
+    pub samples: Vec<Vec<OV>>,
 }
 
-fn canon(rb: &RecordBuf) -> Canon {
+pub fn canon(rb: &RecordBuf) -> Canon {
     Canon {
         chrom: rb.reference_sequence_name().to_string(),
         pos: rb.variant_start().map(usize::from).unwrap_or(0),
@@ -807,7 +807,7 @@ fn canon(rb: &RecordBuf) -> Canon {
     }
 }
 
-fn canon_lazy(header: &vcf::Header, rec: &vcf::Record) -> Result<Canon, String> {
+pub fn canon_lazy(header: &vcf::Header, rec: &vcf::Record) -> Result<Canon, String> {
     let e = |what: &str| what.to_string();
     let pos = match rec.variant_start() {
         None => 0,
@@ -855,7 +855,7 @@ fn canon_lazy(header: &vcf::Header, rec: &vcf::Record) -> Result<Canon, String> 
     })
 }
 
-fn first_diff(a: &Canon, b: &Canon) -> Option<&'static str> {
+pub fn first_diff(a: &Canon, b: &Canon) -> Option<&'static str> {
     if a.chrom != b.chrom { return Some("chrom"); }
     if a.pos != b.pos { return Some("pos"); }
     if a.ids != b.ids { return Some("ids"); }
@@ -869,7 +869,7 @@ fn first_diff(a: &Canon, b: &Canon) -> Option<&'static str> {
     None
 }
 
-fn expected_after_roundtrip(c: &Canon, ver: &str) -> Canon {
+pub fn expected_after_roundtrip(c: &Canon, ver: &str) -> Canon {
     let mut x = c.clone();
     let v44 = is_v44(ver);
     for (_, v) in x.info.iter_mut() {
@@ -1023,7 +1023,7 @@ pub fn run_rec(c: &Case) -> Obs {
     Obs::ok("-", !orig.info.is_empty() || !orig.samples.is_empty())
 }
 
-fn span_of_pub<T: vcf::variant::Record>(header: &vcf::Header, r: &T) -> String {
+pub fn span_of_pub<T: vcf::variant::Record>(header: &vcf::Header, r: &T) -> String {
     let e = g(|| r.variant_end(header).map(usize::from).map_err(|_| ()));
     let s = g(|| r.variant_span(header).map_err(|_| ()));
     let f = |x: &R<usize>| match x { R::Ok(n) => format!("Ok:{n}"), R::Err => "Err".into(), R::Panic => "Panic".into() };
